@@ -71,9 +71,11 @@ ASSUMPTIONS = [
     "O(1) differences in single tensors, 1e-15 in the contraction), so for "
     "that workload number/presence/shape of every tensor and the dynamics "
     "from the full contraction (<=1e-10) are compared",
-    "use-fails (no warning at open, but a tensor read raises) is accepted, "
-    "as decided in DESIGN 3/C17; a consumer failure alone does not excuse "
-    "silently missing tensors",
+    "use-fails (no warning at open, but a tensor read raises) counts as a "
+    "violation of the clause 'opening either fails or warns' (tightened "
+    "after a seeded change showed such files; none occur on the unchanged "
+    "tree); a consumer failure alone does not excuse silently missing "
+    "tensors",
 ]
 LIB_EXC_IS_VIOLATION = True
 
@@ -486,6 +488,22 @@ def _run_crash(case, variant, level, wl, tmp):
         for typ in ("file", "simple"):
             o = outcomes[typ]
             cells.append("outcome:" + ("open-fails" if o == "no-file" else o))
+            if o == "use-fails":
+                # The property's first clause: opening an interrupted file
+                # "either fails or warns". A file that opens WITHOUT the
+                # warning although tensors are missing/unreadable violates it
+                # even if a later read or consumer raises (0 such outcomes on
+                # the unchanged tree in the thorough tier).
+                violations.append({
+                    "what": f"{wl}: writer died by {cc.MODE_NAMES[mode]} at "
+                            f"event {k}/{nev} ({ev}); the file imports as "
+                            f"'{typ}' without any warning although it is "
+                            f"incomplete (reads fail later: "
+                            f"{details[typ][:2]})",
+                    "mechanism": "opens-unwarned-incomplete",
+                    "detail": {"workload": wl, "level": level, "k": k,
+                               "event": ev, "mode": mode, "import": typ,
+                               "diffs": details[typ], "variant": variant}})
             if o == "silent-incomplete":
                 violations.append({
                     "what": f"{wl}: writer died by {cc.MODE_NAMES[mode]} at "
